@@ -80,6 +80,13 @@ func bodyFor(kind string) []byte {
 		return []byte(`{"repositories":["r1","r2"]}`)
 	case "index":
 		return []byte(`{"schemaVersion":2,"manifests":[{"mediaType":"m","digest":"` + string(sampleDg) + `","size":10}]}`)
+	case "index5":
+		// referrers of several artifact types (the registry did not filter)
+		var ms []string
+		for i, at := range []string{"other/type", "want/type", "other/type", "", "third/type", "want/type", "other/type"} {
+			ms = append(ms, fmt.Sprintf(`{"mediaType":"m","digest":"%s","size":%d,"artifactType":%q}`, digest.FromString(fmt.Sprint(i)), 10+i, at))
+		}
+		return []byte(`{"schemaVersion":2,"manifests":[` + strings.Join(ms, ",") + `]}`)
 	case "error":
 		return []byte(`{"errors":[{"code":"BLOB_UNKNOWN","message":"nope"}]}`)
 	case "errors0":
@@ -392,7 +399,7 @@ func run(s Script, v *vt.V) {
 		ok = step("Repositories drain", func() error { _, err := ociregistry.All(seq); return err })
 		ok = ok && step("Repositories drain, the same sequence run again", func() error { _, err := ociregistry.All(seq); return err })
 	case "Referrers":
-		seq := c.Referrers(ctx, "foo", sampleDg, "")
+		seq := c.Referrers(ctx, "foo", sampleDg, []string{"", "want/type", "absent/type"}[max(s.Hint, 0)%3])
 		ok = step("Referrers drain", func() error { _, err := ociregistry.All(seq); return err })
 		ok = ok && step("Referrers drain, the same sequence run again", func() error { _, err := ociregistry.All(seq); return err })
 	case "Chunked", "ResumeExplicit", "ResumeQuery":
@@ -501,7 +508,10 @@ func goodFor(op string, i int) Resp {
 	case "Repositories":
 		r.Body = "catalog"
 	case "Referrers":
-		r.Body = "index"
+		r.Body = []string{"index", "index5", "index5"}[i%3]
+		if i%4 == 3 {
+			h["OCI-Filters-Applied"] = "artifactType"
+		}
 	case "Chunked", "ResumeExplicit", "ResumeQuery":
 		r.Status = 202
 		h["Location"], h["Range"], h["OCI-Chunk-Min-Length"] = loc, "0-4", "8192"
@@ -519,7 +529,7 @@ func genScript(t *rapid.T) Script {
 	var s Script
 	s.PageSize = rapid.SampledFrom([]int{-5, -1, 0, 1, 2, 2, 1000}).Draw(t, "pageSize")
 	s.Op = rapid.SampledFrom(ops).Draw(t, "op")
-	s.Hint = rapid.SampledFrom([]int{0, 0, -1, 1, 1 << 40}).Draw(t, "hint")
+	s.Hint = rapid.SampledFrom([]int{0, 0, -1, 1, 2, 1 << 40}).Draw(t, "hint")
 	s.Auth = rapid.IntRange(0, 5).Draw(t, "auth") == 0
 	if s.Auth && rapid.Bool().Draw(t, "oddToken") {
 		s.TokenBody = rapid.SampledFrom([]string{"jsonnull", "jsonobj", "jsonarr", "tokennum", "tokenhuge", "empty", "truncated", "garbage", "huge"}).Draw(t, "tokenBody")
